@@ -15,6 +15,7 @@
 #define CELMA_COMMON_SINGLETON_HPP
 
 
+#include <atomic>
 #include <memory>
 #include <mutex>
 #include <utility>
@@ -91,12 +92,18 @@ private:
    /// The singleton object, created when instance() is called for the first
    /// time.
    static std::unique_ptr< T>  mpObject;
+   /// Pointer to the singleton object for the unlocked test in instance():
+   /// published with release semantics after the object was created, read
+   /// with acquire semantics. The object itself is owned by #mpObject, which
+   /// is only accessed while holding the mutex.
+   static std::atomic< T*>     mpInstance;
 
 }; // Singleton< T>
 
 
 template< class T> std::mutex           Singleton< T>::mMutex;
 template< class T> std::unique_ptr< T>  Singleton< T>::mpObject;
+template< class T> std::atomic< T*>     Singleton< T>::mpInstance{ nullptr};
 
 
 // inlined methods
@@ -107,16 +114,20 @@ template< class T> template< class... Args>
    T& Singleton< T>::instance( Args&&... args)
 {
 
-   if (mpObject.get() == nullptr)
+   T*  obj = mpInstance.load( std::memory_order_acquire);
+   if (obj == nullptr)
    {
       const std::lock_guard< std::mutex>  lg( mMutex);
-      if (mpObject.get() == nullptr)
+      obj = mpInstance.load( std::memory_order_relaxed);
+      if (obj == nullptr)
       {
          mpObject.reset( new T( std::forward< Args>( args)...));
+         obj = mpObject.get();
+         mpInstance.store( obj, std::memory_order_release);
       } // end if
    } // end if
 
-   return *mpObject;
+   return *obj;
 } // Singleton< T>::instance
 
 
@@ -124,6 +135,7 @@ template< class T> void Singleton< T>::reset()
 {
 
    const std::lock_guard< std::mutex>  lg( mMutex);
+   mpInstance.store( nullptr, std::memory_order_release);
    mpObject.reset();
    
 } // Singleton< T>::reset
